@@ -389,12 +389,15 @@ func c08R5(c *Ctx, rule string) {
 					continue
 				}
 				bo, ok := st.Val.(*ssa.BinOp)
-				if !ok || bo.Op != token.AND {
+				if !ok || (bo.Op != token.AND && bo.Op != token.AND_NOT) {
 					continue
 				}
 				m, isM := intConst(bo.Y)
-				if !isM {
+				if !isM && bo.Op == token.AND {
 					m, isM = intConst(bo.X)
+				}
+				if isM && bo.Op == token.AND_NOT {
+					m = ^m & 0xff // x &^ 0x80 clears exactly the bits of the constant
 				}
 				if isM && m&0x80 == 0 && instrDominates(st, lookup) && instrDominates(st, update) {
 					masked = true
@@ -407,7 +410,7 @@ func c08R5(c *Ctx, rule string) {
 }
 
 func c08R6(c *Ctx, rule string) {
-	c.Rule(rule, "both transports register the 32 bytes that feed the key agreement: randPubKey is copied from the carrier and passed to ecdh.Unmarshal", 2)
+	c.Rule(rule, "both transports register the 32 bytes that feed the key agreement: randPubKey is copied from the carrier and passed to ecdh.Unmarshal (once per transport, or once in a helper both share)", 1)
 	p := c.P
 	randPub := p.Field("internal/server", "authFragments", "randPubKey")
 	um := p.Func("internal/ecdh", "Unmarshal")
